@@ -1215,3 +1215,64 @@ Proof.
     split; [intros m0 q [E|E]; exfalso; [exact (Z1 m0 q E)|exact (Z2 q E)]|split; [intros m0 q E; exfalso; exact (Z3 m0 q E)|intros m0 q x E; exfalso; exact (Z4 m0 q x E)]].
   - intro Wc. exfalso. destruct c; try destruct Wc; destruct Nc.
 Qed.
+
+(** a thread is spawned (with [pp = true]: the worker of the new pipe [q]) *)
+Lemma f_spawn : forall st st' m q (pp : bool),
+  (forall u, wkr st u -> pexists (pps st (tpipe (thr st u))) = true) -> FRel FNone st m -> (1 <= nthr st)%nat ->
+  nthr st' = S (nthr st) -> (forall u, u <> nthr st -> thr st' u = thr st u) ->
+  tcont (thr st (nthr st)) = [] -> tcur (thr st (nthr st)) = None ->
+  tcont (thr st' (nthr st)) = [] -> tcur (thr st' (nthr st)) = None -> tpipe (thr st' (nthr st)) = q ->
+  (0 <= q <-> pp = true) ->
+  (forall q', (pp = false \/ q' <> q) -> pps st' q' = pps st q') ->
+  (pp = true -> pexists (pps st q) = false /\ pexists (pps st' q) = true /\ psendq (pps st' q) = [] /\ pcancel (pps st' q) = false) ->
+  FRel FNone st' m.
+Proof.
+  intros st st' m q pp E R H1 Hn Ho Hc0 Hcu0 Hc0' Hcu0' Htp0 Hq Hpo Hpq.
+  set (u0 := nthr st) in *.
+  assert (Mne : main <> u0) by (unfold u0, main; lia).
+  assert (Mc : mcont st' = mcont st) by (unfold mcont; rewrite (Ho main Mne); reflexivity).
+  assert (Wold : forall u, wkr st u -> u <> u0) by (intros u [A _]; unfold u0; lia).
+  assert (Wk : forall u, wkr st' u <-> (u = u0 /\ pp = true) \/ (u <> u0 /\ wkr st u)).
+  { intro u. unfold wkr. rewrite Hn. destruct (Nat.eq_dec u u0) as [->|Ne].
+    - rewrite Htp0, Hq. split; [intros [_ H]; left; auto|intros [[_ H]|[H _]]; [split; [unfold u0; lia|exact H]|exfalso; apply H; reflexivity]].
+    - rewrite (Ho u Ne). split; [intros [A B]; right; split; [exact Ne|split; [unfold u0 in Ne; lia|exact B]]|intros [[A _]|[_ [A B]]]; [contradiction|split; [lia|exact B]]]. }
+  assert (Pex : forall q', pexists (pps st q') = true -> pps st' q' = pps st q').
+  { intros q' H. apply Hpo. destruct (Bool.bool_dec pp true) as [Ep|Ep]; [right|left; apply not_true_is_false; exact Ep].
+    intro Y. subst q'. destruct (Hpq Ep) as [A _]. rewrite A in H. discriminate H. }
+  assert (Pnx : forall q', pexists (pps st' q') = false -> pps st' q' = pps st q' /\ pexists (pps st q') = false).
+  { intros q' H. assert (Z0 : pp = false \/ q' <> q).
+    { destruct (Bool.bool_dec pp true) as [Ep|Ep]; [right|left; apply not_true_is_false; exact Ep]. intro Y. subst q'. destruct (Hpq Ep) as [_ [A _]]. rewrite A in H. discriminate H. }
+    rewrite (Hpo q' Z0) in H. split; [apply Hpo; exact Z0|exact H]. }
+  assert (NoL : ~ is_late m u0) by (intro L; destruct (f_late_cur _ _ _ R u0 L) as [c0 [E0 _]]; rewrite Hcu0 in E0; discriminate E0).
+  constructor.
+  - intros t q0 x Y. discriminate Y.
+  - intros t q0 Y. discriminate Y.
+  - intros q' H. destruct (Pnx q' H) as [A B]. rewrite A, Mc. apply (f_noex _ _ _ R q' B).
+  - intros q' H. pose proof (f_drop _ _ _ R q' H) as Pc.
+    assert (Ex : pexists (pps st q') = true) by (destruct (pexists (pps st q')) eqn:Ee; [reflexivity|destruct (f_noex _ _ _ R q' Ee) as [_ [_ [_ [_ [Z0 _]]]]]; rewrite Z0 in H; discriminate H]).
+    rewrite (Pex q' Ex). exact Pc.
+  - intros u W L. apply Wk in W. destruct W as [[-> _]|[Ne W]]; [exfalso; exact (NoL L)|].
+    rewrite (Ho u Ne). rewrite (Pex _ (E u W)). apply (f_late _ _ _ R u W L).
+  - intros u c W L Hq0. apply Wk in W. destruct W as [[-> _]|[Ne W]]; [exfalso; exact (NoL L)|]. rewrite (Ho u Ne) in *. apply (f_ok _ _ _ R u c W L Hq0).
+  - intros u W. cbn zeta. rewrite Mc. apply Wk in W. destruct W as [[-> Ep]|[Ne W]].
+    + rewrite Htp0. destruct (Hpq Ep) as [Ex [_ [Ps _]]]. destruct (f_noex _ _ _ R q Ex) as [A [B [_ [_ [_ [_ C]]]]]].
+      rewrite A, B, Ps, C. unfold rtransit. rewrite Hc0', Hcu0'. reflexivity.
+    + rewrite (Ho u Ne). rewrite (Pex _ (E u W)). apply (f_ps _ _ _ R u W).
+  - intros u m0 q0 x Hin. destruct (Nat.eq_dec u u0) as [->|Ne]; [rewrite Hc0' in Hin; destruct Hin|]. rewrite (Ho u Ne) in *. apply (f_own_send _ _ _ R u m0 q0 x Hin).
+  - intros u q0 x Hq0. destruct (Nat.eq_dec u u0) as [->|Ne]; [rewrite Hcu0' in Hq0; discriminate Hq0|]. rewrite (Ho u Ne) in *. apply (f_sendret _ _ _ R u q0 x Hq0).
+  - intros u q0 Hq0 Np. destruct (Nat.eq_dec u u0) as [->|Ne]; [rewrite Hcu0' in Hq0; discriminate Hq0|]. rewrite (Ho u Ne) in *.
+    destruct (f_dropcmd _ _ _ R u q0 Hq0 Np) as [[m0 A]|A]; [left; exists m0; exact A|].
+    assert (Ex : pexists (pps st q0) = true) by (destruct (pexists (pps st q0)) eqn:Ee; [reflexivity|destruct (f_noex _ _ _ R q0 Ee) as [_ [_ [_ [Z0 _]]]]; rewrite Z0 in A; discriminate A]).
+    right. rewrite (Pex q0 Ex). exact A.
+  - intros u m0 q0 Hin. destruct (Nat.eq_dec u u0) as [->|Ne]; [rewrite Hc0' in Hin; destruct Hin|]. rewrite (Ho u Ne) in *.
+    destruct (f_own_cs _ _ _ R u m0 q0 Hin) as [A [B C]]. rewrite (Pex q0 C). auto.
+  - intros u L. destruct (Nat.eq_dec u u0) as [->|Ne]; [exfalso; exact (NoL L)|]. rewrite (Ho u Ne). apply (f_late_cur _ _ _ R u L).
+  - intros u m0 v Hin. destruct (Nat.eq_dec u u0) as [->|Ne]; [rewrite Hc0' in Hin; destruct Hin|]. rewrite (Ho u Ne) in *.
+    destruct (f_own_ret _ _ _ R u m0 v Hin) as [A B]. split; [exact A|]. intros z Ez. destruct (B z Ez) as [B1 B2]. split; [exact B1|apply Wk; right; split; [exact Ne|exact B2]].
+  - intros u j Hin. destruct (Nat.eq_dec u u0) as [->|Ne]; [rewrite Hc0' in Hin; destruct Hin|]. rewrite (Ho u Ne) in *.
+    destruct (f_own_pr _ _ _ R u j Hin) as [A [B C]].
+    split; [intros m0 q0 Y; destruct (A m0 q0 Y) as [A1 A2]; split; [apply Wk; right; split; [exact Ne|exact A1]|exact A2]|split;
+      [intros m0 q0 Y; destruct (B m0 q0 Y) as [B1 B2]; split; [apply Wk; right; split; [exact Ne|exact B1]|exact B2]
+      |intros m0 q0 x Y; destruct (C m0 q0 x Y) as [C1 C2]; split; [apply Wk; right; split; [exact Ne|exact C1]|exact C2]]].
+  - intros u c Hq0 Wc. destruct (Nat.eq_dec u u0) as [->|Ne]; [rewrite Hcu0' in Hq0; discriminate Hq0|]. rewrite (Ho u Ne) in *. apply (f_pr _ _ _ R u c Hq0 Wc).
+Qed.
